@@ -44,8 +44,15 @@ def axes(tier):
 
 
 def payloads(m, n, seed, impulses):
-    yield 'dense', rm.generic_complex((m, n), seed, tag=m * 10 + n)
-    if impulses and m * n <= 9:
+    d = rm.generic_complex((m, n), seed, tag=m * 10 + n)
+    yield 'dense', d
+    if impulses:
+        # other legal input classes: column-major layout, a transposed view, real and integer data
+        yield 'dense-fortran', np.asfortranarray(d)
+        yield 'dense-view', np.ascontiguousarray(d.T).T
+        yield 'real-int', np.floor(np.real(d) * 8).astype(np.int64)
+        yield 'real-float32', np.real(d).astype(np.float32)
+    if impulses and m * n <= 9 and True:
         for k in range(m * n):
             e = np.zeros(m * n, dtype=complex); e[k] = 1
             yield f'e{k}', e.reshape(m, n)
@@ -139,6 +146,10 @@ def chk_inv(case, acc, seed):
     import lentil.fourier as lf
     m, n, unitary, outm = case['m'], case['n'], case['unitary'], case['out']
     alpha = (1.0 / m, 1.0 / n)
+    if case.get('alpha_form') == 'scalar':
+        if m != n:
+            return
+        alpha = 1.0 / n                 # the documented scalar form (isotropic sampling)
     for pname, f in payloads(m, n, seed, impulses=True):
         sub = dict(case, payload=pname)
         F = lf.dft2(f, alpha, unitary=unitary)
@@ -148,8 +159,8 @@ def chk_inv(case, acc, seed):
             kw['out'] = np.full((m, n), 5 + 2j) if outm == 'garbage' else np.zeros((m, n), dtype=complex)
         F0 = np.array(F, copy=True)
         g = lf.idft2(F, alpha, unitary=unitary, **kw)
-        tol = 1e-9 * (1 + np.sum(np.abs(f)))
-        err = rm.maxerr(g, f)
+        tol = 1e-9 * (1 + np.sum(np.abs(np.asarray(f, dtype=complex))))
+        err = rm.maxerr(g, np.asarray(f, dtype=complex))
         if not err <= tol:
             ratio = np.sum(np.abs(g)) / max(np.sum(np.abs(f)), 1e-300)
             acc.violation(f'idft2:roundtrip:unitary={unitary}', sub,
@@ -162,7 +173,7 @@ def chk_inv(case, acc, seed):
             e_in, e_out = np.sum(np.abs(F0) ** 2), np.sum(np.abs(g) ** 2)
             if abs(e_in - e_out) > 1e-9 * (1 + e_in):
                 acc.violation('idft2:energy:unitary=True', sub, f'sum|idft2(F)|^2 = {e_out:.6g} != sum|F|^2 = {e_in:.6g}')
-            e_f = np.sum(np.abs(f) ** 2)
+            e_f = np.sum(np.abs(np.asarray(f, dtype=complex)) ** 2)
             if abs(e_in - e_f) > 1e-9 * (1 + e_f):
                 acc.violation('dft2:energy:unitary=True', sub, f'sum|F|^2 = {e_in:.6g} != sum|f|^2 = {e_f:.6g}')
         if outm != 'none' and not np.shares_memory(g, kw['out']):
@@ -186,6 +197,7 @@ def t_sub(arg, acc):
             for o in OUTS:
                 acc.transitions += 1
                 chk_inv({'kind': 'inv', 'm': m, 'n': n, 'unitary': u, 'out': o}, acc, seed)
+                chk_inv({'kind': 'inv', 'm': m, 'n': n, 'unitary': u, 'out': o, 'alpha_form': 'scalar'}, acc, seed)
         chk_out_dtype({'kind': 'outdtype', 'm': m, 'n': n}, acc, seed)
 
 
